@@ -1396,3 +1396,35 @@ def choicetype(repo, facts):
                 ": b` with a narrow a and a 64-bit b fails the runtime's static_assert when the field is used", hg.rel, fmt_line, f.name)
     res.analysed = [hg.rel, "runtime/cpp/emboss_arithmetic.h"]
     return res
+
+
+def paramvis(repo, templates):
+    """R-PARAMVIS (C07): front end / template agreement.  `_resolve_field_reference` looks the next component of `a.b` up
+    among *all* members of a's type, runtime parameters included, so `inner.n` is accepted for a parameter n and rendered
+    as `inner().n()` from the enclosing view class.  Either the resolver rejects a RuntimeParameter found by the member
+    lookup, or the parameter accessor template declares `n()` under `public:`."""
+    res = RuleResult("R-PARAMVIS")
+    name = "structure_single_parameter_field_method_declarations"
+    if name not in templates.templates:
+        raise AnalysisError(f"template {name} vanished")
+    text = templates.templates[name]["text"]
+    m = re.search(r"^\s*(public|private|protected)\s*:", text, re.M)
+    res.instances = 1
+    if m and m.group(1) == "public":
+        return res
+    sr = repo.mod("compiler/front_end/symbol_resolver.py")
+    f = [x for x in sr.top_funcs() if x.name == "_resolve_field_reference"]
+    if not f:
+        raise AnalysisError("symbol_resolver._resolve_field_reference not found")
+    # a rejection of parameters *after* the member lookup: an isinstance(.., RuntimeParameter) test whose body appends an error,
+    # located after the assignment from find_object_or_none(member_name, ...)
+    lookup = [n.lineno for n in walk_no_nested_funcs(f[0].node) if isinstance(n, ast.Assign) and "member_name" in ast.unparse(n.value)
+              and "find_object" in ast.unparse(n.value)]
+    rejects = [n for n in walk_no_nested_funcs(f[0].node) if isinstance(n, ast.If) and "RuntimeParameter" in ast.unparse(n.test)
+               and "errors.append" in ast.unparse(n) and lookup and n.lineno > min(lookup)]
+    if not rejects:
+        res.add(f"{TEMPLATES}|{name}|private", "runtime parameter accessors are declared `" + (m.group(1) if m else "?") + ":` but the front "
+                "end accepts `inner.n` (member lookup finds parameters) and the back end renders it as `inner().n()` from another "
+                "class: the header does not compile", TEMPLATES, templates.templates[name]["line"], name)
+    res.analysed = [TEMPLATES, sr.rel]
+    return res
